@@ -57,9 +57,10 @@ def ext_reach(facts, body, blocks, exclude=()):
     return out
 
 
-def matrix(roles, u, coll_sites, adaptor_bi):
+def matrix(roles, u, coll_sites, adaptor_bi, pred_sites=()):
     root = u.root
     facts = roles.facts
+    raw_elems = {}
 
     def is_operand0(e):
         e = strip_refs(e)
@@ -70,8 +71,38 @@ def matrix(roles, u, coll_sites, adaptor_bi):
 
     coll_bis = {s.bi for s, _ in coll_sites}
 
+    def is_coll_call(x):
+        return x[0] == "call" and x[1] and x[1].get("key") == roles.parsed_evaluate and x[3] in coll_bis
+
     def mentions_coll(e):
-        return expr_mentions(e, lambda x: x[0] == "call" and x[1] and x[1].get("key") == roles.parsed_evaluate and x[3] in coll_bis)
+        return expr_mentions(e, is_coll_call)
+
+    def unfaithful(e, out):
+        """Calls between expression e and the collection's evaluation other than the faithful
+        Evaluated → Value conversion, `?`, clone and deref: the value they return need not have the
+        kind the collection evaluated to."""
+        if not isinstance(e, tuple) or is_coll_call(e):
+            return
+        if e[0] == "call" and e[1]:
+            inner = [a for a in e[2] if mentions_coll(a)]
+            if inner:
+                c = e[1]
+                fwd = {x.get("key") for x in c.get("fwd") or []}
+                ok = c.get("key") == roles.conv.key or roles.conv.key in fwd or re.search(r"as std::ops::Try>::branch$|as std::clone::Clone>::clone$|as std::ops::Deref>::deref$|as std::borrow::Borrow<.*>>::borrow$|as std::convert::AsRef<.*>>::as_ref$", c["path"]) is not None
+                if not ok:
+                    out.add(c["path"])
+                for a in inner:
+                    unfaithful(a, out)
+            return
+        for x in e[1:]:
+            if isinstance(x, tuple):
+                unfaithful(x, out)
+            elif isinstance(x, list):
+                for y in x:
+                    if isinstance(y, tuple):
+                        unfaithful(y, out)
+
+    lossy = set()
 
     res = {}
     kinds = facts.variants(VALUE)
@@ -87,12 +118,36 @@ def matrix(roles, u, coll_sites, adaptor_bi):
             if e[0] in ("phi",) and (mentions_coll(e) or any(is_operand0(x) for x in e[2])):
                 return _eff
             if mentions_coll(e) and e[0] != "phi":
+                bad = set()
+                unfaithful(e, bad)
+                if bad:
+                    lossy.update(bad)
+                    return None
                 return _eff
             return None
 
         restrict = P.specialise_unit(roles, root.key, assume)
         blocks = restrict[root.key]
         evaluated = any(s.bi in blocks for s, _ in coll_sites)
+        if o in ("Array", "Object") and eff in ("Array", "String"):
+            # can an element reach the predicate's evaluation without being parsed and evaluated first?
+            for ps in pred_sites:
+                pb = ps.body
+                within = restrict.get(pb.key, set())
+                if ps.bi not in within:
+                    continue
+                seen, st = set(), [0]
+                while st:
+                    n = st.pop()
+                    if n in seen or n not in within:
+                        continue
+                    seen.add(n)
+                    t = pb.blocks[n]["term"]
+                    c = callee_of(t) if t["k"] == "Call" else None
+                    if c is not None and c.get("key") in roles.sinks:
+                        continue
+                    st.extend(pb.succs(n))
+                raw_elems[(o, v)] = raw_elems.get((o, v), False) or (ps.bi in seen)
         if adaptor_bi in blocks:
             with root.restricted(blocks):
                 recv = root.trace(root.blocks[adaptor_bi]["term"]["args"][0])
@@ -119,7 +174,7 @@ def matrix(roles, u, coll_sites, adaptor_bi):
             else:
                 kind = "OTHER(%s)" % show_expr(r)[:60]
         res[(o, v)] = (kind, evaluated)
-    return res
+    return res, lossy, raw_elems
 
 
 def expected(o, v):
@@ -249,8 +304,17 @@ def run(ctx):
             ctx.check(empt is not None and empt[1] is False, "K3.empty-false", "%s: an empty collection returns false before the iteration (%s)" % (name, cfg),
                       "no dominating emptiness test returning the constant false (found %s)" % (empt,), where=b.where(), fn=b.key, nontrivial=True, sample={"operator": name, "test_block": empt[0] if empt else None})
             # ---------------- K2 matrix
-            m = matrix(roles, u, colls, abi)
+            m, lossy, raw_elems = matrix(roles, u, colls, abi, [ps for ps, _ in pes])
             mats[name] = m
+            ctx.floor("%s: cases in which elements reach the predicate (%s)" % (name, cfg), len(raw_elems), 3)
+            for (o, v), raw in sorted(raw_elems.items(), key=lambda kv: (kv[0][0], kv[0][1] or "")):
+                label = "%s%s" % (o, ("→" + v) if v else "")
+                want_raw = o != "Array"
+                ctx.check(raw == want_raw, "K5.literal-elements-evaluated", "%s: elements of %s reach the predicate %s (%s)" % (name, label, "as they are" if want_raw else "only after being evaluated against the outer data", cfg),
+                          ("%s: an element of the literal array can reach the predicate without having been parsed and evaluated" % name) if not want_raw else ("%s: an element of a computed collection cannot reach the predicate as it is" % name),
+                          where=b.where(), fn=b.key, nontrivial=True)
+            ctx.check(not lossy, "K2.collection-unchanged", "%s: the evaluated collection reaches the kind test through the faithful conversion only (%s)" % (name, cfg),
+                      "%s passes the evaluated collection through %s before looking at its kind: what it evaluated to is no longer what is normalised" % (name, sorted(lossy)), where=b.where(), fn=b.key, nontrivial=True)
             for (o, v), (got, evaluated) in sorted(m.items(), key=lambda kv: (kv[0][0], kv[0][1] or "")):
                 want = expected(o, v)
                 label = "%s%s" % (o, ("→" + v) if v else "")
